@@ -127,6 +127,14 @@ func (t *verifC07lT) dim(name string) int {
 	return d
 }
 
+// dimDrv: a problem dimension of an expensive driver, case split in [-1, ldrvdim].
+func (t *verifC07lT) dimDrv(name string) int {
+	d := verifChoose(name, -1, verifParam("ldrvdim", 1))
+	t.flags = verifAnd(t.flags, d >= 0)
+	t.nonemp = verifAnd(t.nonemp, d > 0)
+	return d
+}
+
 // rhs: a number of right-hand sides, case split in [-1, lmaxrhs].
 func (t *verifC07lT) rhs(name string) int {
 	d := verifChoose(name, -1, verifParam("lmaxrhs", 2))
@@ -159,6 +167,15 @@ func (t *verifC07lT) gapIf(c bool) { t.gap = verifOr(t.gap, c) }
 func (t *verifC07lT) ld(name string, min int) *int {
 	p := new(int)
 	*p = verifInt(name, 0, verifParam("lmaxld", 4))
+	t.lds = verifAnd(t.lds, *p >= min)
+	t.ldp = append(t.ldp, p)
+	return p
+}
+
+// ldDrv: a leading dimension of an expensive driver, symbolic in [0, ldrvld].
+func (t *verifC07lT) ldDrv(name string, min int) *int {
+	p := new(int)
+	*p = verifInt(name, 0, verifParam("ldrvld", 2))
 	t.lds = verifAnd(t.lds, *p >= min)
 	t.ldp = append(t.ldp, p)
 	return p
@@ -272,6 +289,25 @@ func (t *verifC07lT) ints(name string, need int, exact bool) []int {
 		t.store = verifAnd(t.store, len(v) >= need)
 	}
 	t.short = verifOr(t.short, len(v) < need)
+	return v
+}
+
+// intsAlways: an integer slice whose length is checked unconditionally (documented "must have
+// length need ... otherwise the routine will panic"): accept needs exactly need cells; reject: fewer
+// (strict: any other length), also for empty problems and workspace queries.
+func (t *verifC07lT) intsAlways(name string, need int, strict bool) []int {
+	backing := make([]int, verifC07lCap)
+	for i := range backing {
+		backing[i] = i
+	}
+	v := verifSetLen(backing, verifInt("len_"+name, 0, verifC07lCap))
+	t.is = append(t.is, backing)
+	t.store = verifAnd(t.store, len(v) == need)
+	if strict {
+		t.always = verifOr(t.always, len(v) != need)
+	} else {
+		t.always = verifOr(t.always, len(v) < need)
+	}
 	return v
 }
 
@@ -1022,8 +1058,8 @@ func VerifC07_Dgeqp3() {
 func VerifC07_Dgels() {
 	t := verifC07lBegin("Dgels")
 	tr := t.trans2("trans")
-	m, n, nrhs := t.dim("m"), t.dim("n"), t.rhs("nrhs")
-	lda, ldb := t.ld("lda", verifC07lMax(1, n)), t.ld("ldb", verifC07lMax(1, nrhs))
+	m, n, nrhs := t.dimDrv("m"), t.dimDrv("n"), t.rhs("nrhs")
+	lda, ldb := t.ldDrv("lda", verifC07lMax(1, n)), t.ldDrv("ldb", verifC07lMax(1, nrhs))
 	a := t.mat("a", m, n, lda)
 	mx, mn := verifC07lMax(m, n), verifC07lMin(m, n)
 	b := t.mat("b", mx, nrhs, ldb)
@@ -1143,15 +1179,15 @@ func VerifC07_Dgesvd() {
 	}
 	t.need(verifAnd(legal(ju), legal(jv)))
 	jobU, jobVT := lapack.SVDJob(ju), lapack.SVDJob(jv)
-	m, n := t.dim("m"), t.dim("n")
+	m, n := t.dimDrv("m"), t.dimDrv("n")
 	mn, mx := verifC07lMin(m, n), verifC07lMax(m, n)
 	ucols := verifIteInt(jobU == lapack.SVDAll, m, verifIteInt(jobU == lapack.SVDStore, mn, 0))
 	urows := verifIteInt(ucols > 0, m, 0)
 	vrows := verifIteInt(jobVT == lapack.SVDAll, n, verifIteInt(jobVT == lapack.SVDStore, mn, 0))
 	vcols := verifIteInt(vrows > 0, n, 0)
-	lda := t.ld("lda", verifC07lMax(1, n))
-	ldu := t.ld("ldu", verifC07lMax(1, ucols))
-	ldvt := t.ld("ldvt", verifC07lMax(1, vcols))
+	lda := t.ldDrv("lda", verifC07lMax(1, n))
+	ldu := t.ldDrv("ldu", verifC07lMax(1, ucols))
+	ldvt := t.ldDrv("ldvt", verifC07lMax(1, vcols))
 	a := t.mat("a", m, n, lda)
 	s := t.vec("s", mn)
 	u := t.mat("u", urows, ucols, ldu)
@@ -1163,15 +1199,15 @@ func VerifC07_Dgesvd() {
 
 // Dgeev: jobvl, jobvr legal; "wr and wi must have length n, and Dgeev will panic otherwise";
 // vl, vr are n x n when computed; ldvl, ldvr >= 1; lwork >= max(1,4*n) with vectors, max(1,3*n) without, or -1.
-func VerifC07_Dgeev() {
+func verifC07lGeev(work1 bool) {
 	t := verifC07lBegin("Dgeev")
 	jl := lapack.LeftEVJob(t.flag("jobvl", byte(lapack.LeftEVCompute), byte(lapack.LeftEVNone)))
 	jr := lapack.RightEVJob(t.flag("jobvr", byte(lapack.RightEVCompute), byte(lapack.RightEVNone)))
-	n := t.dim("n")
+	n := t.dimDrv("n")
 	wl, wr := jl == lapack.LeftEVCompute, jr == lapack.RightEVCompute
-	lda := t.ld("lda", verifC07lMax(1, n))
-	ldvl := t.ld("ldvl", verifC07lMax(1, verifIteInt(wl, n, 0)))
-	ldvr := t.ld("ldvr", verifC07lMax(1, verifIteInt(wr, n, 0)))
+	lda := t.ldDrv("lda", verifC07lMax(1, n))
+	ldvl := t.ldDrv("ldvl", verifC07lMax(1, verifIteInt(wl, n, 0)))
+	ldvr := t.ldDrv("ldvr", verifC07lMax(1, verifIteInt(wr, n, 0)))
 	a := t.mat("a", n, n, lda)
 	wre := t.vecExact("wr", n, true)
 	wim := t.vecExact("wi", n, true)
@@ -1179,12 +1215,23 @@ func VerifC07_Dgeev() {
 	vr := t.mat("vr", verifIteInt(wr, n, 0), verifIteInt(wr, n, 0), ldvr)
 	minw := verifIteInt(verifOr(wl, wr), 4*n, 3*n)
 	work, lwork := t.work(minw, 4*n)
+	if work1 {
+		verifAssume(len(work) >= 1)
+	}
 	t.run(func() { verifC07lImpl.Dgeev(jl, jr, n, a, *lda, wre, wim, vl, *ldvl, vr, *ldvr, work, *lwork) })
 }
+
+// VerifC07_Dgeev is an OPEN VIOLATION (not in the check spec): a workspace query (or n == 0) with an
+// empty work faults. VerifC07_DgeevWork1 assumes len(work) >= 1 and is in the spec.
+func VerifC07_Dgeev()      { verifC07lGeev(false) }
+func VerifC07_DgeevWork1() { verifC07lGeev(true) }
 
 // verifC07lIloIhi: "0 <= ilo <= ihi < n if n > 0, and ilo == 0 and ihi == -1 if n == 0".
 func verifC07lIloIhi(t *verifC07lT, n int) (ilo, ihi int) {
 	hi := verifParam("lmaxdim", 2)
+	if hi > n+1 {
+		hi = n + 1
+	}
 	ilo, ihi = t.par("ilo", -1, hi), t.par("ihi", -1, hi)
 	t.need(verifOr(verifAnd(n > 0, verifAnd(0 <= ilo, verifAnd(ilo <= ihi, ihi < n))),
 		verifAnd(n == 0, verifAnd(ilo == 0, ihi == -1))))
@@ -1192,7 +1239,9 @@ func verifC07lIloIhi(t *verifC07lT, n int) (ilo, ihi int) {
 }
 
 // Dgehrd: "tau must have length equal to n-1 if n > 0, otherwise Dgehrd will panic"; lwork >= max(1,n) or -1.
-func VerifC07_Dgehrd() {
+// VerifC07_Dgehrd is an OPEN VIOLATION (not in the check spec): a workspace query with an empty work
+// faults. VerifC07_DgehrdWork1 assumes len(work) >= 1 and is in the spec.
+func verifC07lGehrd(work1 bool) {
 	t := verifC07lBegin("Dgehrd")
 	n := t.dim("n")
 	ilo, ihi := verifC07lIloIhi(t, n)
@@ -1200,8 +1249,14 @@ func VerifC07_Dgehrd() {
 	a := t.mat("a", n, n, lda)
 	tau := t.vecExact("tau", verifC07lMax(0, n-1), true)
 	work, lwork := t.work(n, n)
+	if work1 {
+		verifAssume(len(work) >= 1)
+	}
 	t.run(func() { verifC07lImpl.Dgehrd(n, ilo, ihi, a, *lda, tau, work, *lwork) })
 }
+
+func VerifC07_Dgehrd()      { verifC07lGehrd(false) }
+func VerifC07_DgehrdWork1() { verifC07lGehrd(true) }
 
 // Dhseqr: job, compz legal; ilo, ihi as for Dgehrd; ldh >= max(1,n); ldz >= 1 and >= n when Z is
 // wanted; "wr and wi must have length n"; lwork >= max(1,n) or -1. H is laid out upper Hessenberg
@@ -1210,11 +1265,11 @@ func VerifC07_Dhseqr() {
 	t := verifC07lBegin("Dhseqr")
 	job := lapack.SchurJob(t.flag("job", byte(lapack.EigenvaluesOnly), byte(lapack.EigenvaluesAndSchur)))
 	cz := lapack.SchurComp(t.flag("compz", byte(lapack.SchurNone), byte(lapack.SchurHess), byte(lapack.SchurOrig)))
-	n := t.dim("n")
+	n := t.dimDrv("n")
 	ilo, ihi := verifC07lIloIhi(t, n)
 	wantz := cz != lapack.SchurNone
-	ldh := t.ld("ldh", verifC07lMax(1, n))
-	ldz := t.ld("ldz", verifC07lMax(1, verifIteInt(wantz, n, 0)))
+	ldh := t.ldDrv("ldh", verifC07lMax(1, n))
+	ldz := t.ldDrv("ldz", verifC07lMax(1, verifIteInt(wantz, n, 0)))
 	hb, h := t.slice("h")
 	t.store = verifAnd(t.store, verifC07lMatOK(n, n, *ldh, len(h)))
 	t.short = verifOr(t.short, verifNot(verifC07lMatOK(n, n, *ldh, len(h))))
@@ -1246,7 +1301,7 @@ func VerifC07_Dhseqr() {
 	t.run(func() { verifC07lImpl.Dhseqr(job, cz, n, ilo, ihi, h, *ldh, wr, wi, z, *ldz, work, *lwork) })
 }
 
-// Dbdsqr: uplo legal; n, ncvt, nru, ncc >= 0; ldvt >= max(1,ncvt), ldu >= max(1,n), ldc >= max(1,ncc);
+// Dbdsqr: uplo legal; n, ncvt, nru, ncc >= 0; ldvt >= max(1,ncvt), ldu >= max(1,n) ("U is not used if nru == 0": then ldu >= 1), ldc >= max(1,ncc);
 // d at least n, e at least n-1; vt is n x ncvt, u is nru x n, c is n x ncc;
 // "work ... must have length at least 4*(n-1)".
 // VerifC07_Dbdsqr is an OPEN VIOLATION (not in the check spec): with ncvt == nru == ncc == 0 the
@@ -1254,13 +1309,13 @@ func VerifC07_Dhseqr() {
 func verifC07lBdsqr(work4n bool) {
 	t := verifC07lBegin("Dbdsqr")
 	ul := t.uplo("uplo")
-	n := t.dim("n")
+	n := t.dimDrv("n")
 	hi := verifParam("lmaxrhs", 1)
 	ncvt, nru, ncc := t.par("ncvt", -1, hi), t.par("nru", -1, hi), t.par("ncc", -1, hi)
 	t.need(verifAnd(ncvt >= 0, verifAnd(nru >= 0, ncc >= 0)))
-	ldvt := t.ld("ldvt", verifC07lMax(1, ncvt))
-	ldu := t.ld("ldu", verifC07lMax(1, n))
-	ldc := t.ld("ldc", verifC07lMax(1, ncc))
+	ldvt := t.ldDrv("ldvt", verifC07lMax(1, ncvt))
+	ldu := t.ldDrv("ldu", verifC07lMax(1, verifIteInt(nru > 0, n, 0)))
+	ldc := t.ldDrv("ldc", verifC07lMax(1, ncc))
 	d := t.vec("d", n)
 	e := t.vec("e", n-1)
 	vt := t.mat("vt", n, ncvt, ldvt)
@@ -1335,6 +1390,8 @@ func VerifC07_Dgebal() {
 	t := verifC07lBegin("Dgebal")
 	job := lapack.BalanceJob(t.flag("job", byte(lapack.BalanceNone), byte(lapack.Permute), byte(lapack.Scale), byte(lapack.PermuteScale)))
 	n := t.dim("n")
+	// "If job is lapack.BalanceNone, Dgebal sets scale[i] = 1 for all i and returns": a is not looked at
+	t.emptyIf(job == lapack.BalanceNone)
 	lda := t.ld("lda", verifC07lMax(1, n))
 	a := t.mat("a", n, n, lda)
 	scale := t.vecExact("scale", n, true)
@@ -1354,4 +1411,88 @@ func VerifC07_Dgebak() {
 	scale := t.vec("scale", n)
 	v := t.mat("v", n, m, ldv)
 	t.run(func() { verifC07lImpl.Dgebak(job, sd, n, ilo, ihi, scale, m, v, *ldv) })
+}
+
+// ---------------- generalized SVD ----------------
+
+type verifC07lGsvd struct {
+	t                       *verifC07lT
+	jobU, jobV, jobQ        lapack.GSVDJob
+	m, p, n                 int
+	lda, ldb, ldu, ldv, ldq *int
+	a, b, u, v, q           []float64
+}
+
+// verifC07lGsvdArgs: jobU in {GSVDU, GSVDNone} (unit: also GSVDUnit), likewise jobV, jobQ; m, p, n >= 0;
+// lda, ldb >= max(1,n); ldu, ldv, ldq >= 1 and >= m, p, n when the matrix is wanted;
+// a is m x n, b is p x n, "U, V and Q must be m x m, p x p and n x n respectively unless the relevant
+// job parameter is lapack.GSVDNone".
+func verifC07lGsvdArgs(name string, unit bool) *verifC07lGsvd {
+	t := verifC07lBegin(name)
+	g := &verifC07lGsvd{t: t}
+	job := func(nm string, c lapack.GSVDJob) lapack.GSVDJob {
+		if unit {
+			return lapack.GSVDJob(t.flag(nm, byte(c), byte(lapack.GSVDUnit), byte(lapack.GSVDNone)))
+		}
+		return lapack.GSVDJob(t.flag(nm, byte(c), byte(lapack.GSVDNone)))
+	}
+	g.jobU, g.jobV, g.jobQ = job("jobU", lapack.GSVDU), job("jobV", lapack.GSVDV), job("jobQ", lapack.GSVDQ)
+	g.m, g.p, g.n = t.dimDrv("m"), t.dimDrv("p"), t.dimDrv("n")
+	wu, wv, wq := g.jobU != lapack.GSVDNone, g.jobV != lapack.GSVDNone, g.jobQ != lapack.GSVDNone
+	um, vp, qn := verifIteInt(wu, g.m, 0), verifIteInt(wv, g.p, 0), verifIteInt(wq, g.n, 0)
+	g.lda, g.ldb = t.ldDrv("lda", verifC07lMax(1, g.n)), t.ldDrv("ldb", verifC07lMax(1, g.n))
+	g.ldu, g.ldv, g.ldq = t.ldDrv("ldu", verifC07lMax(1, um)), t.ldDrv("ldv", verifC07lMax(1, vp)), t.ldDrv("ldq", verifC07lMax(1, qn))
+	g.a, g.b = t.mat("a", g.m, g.n, g.lda), t.mat("b", g.p, g.n, g.ldb)
+	g.u, g.v, g.q = t.mat("u", um, um, g.ldu), t.mat("v", vp, vp, g.ldv), t.mat("q", qn, qn, g.ldq)
+	return g
+}
+
+// Dggsvp3: "iwork must have length n, work must have length at least max(1, lwork), and lwork must
+// be -1 or greater than zero, otherwise Dggsvp3 will panic"; tau (not mentioned) holds n cells (reference LAPACK).
+func VerifC07_Dggsvp3() {
+	g := verifC07lGsvdArgs("Dggsvp3", false)
+	t := g.t
+	iwork := t.intsAlways("iwork", g.n, true)
+	tau := t.vec("tau", g.n)
+	work, lwork := t.work(1, 1)
+	t.run(func() {
+		verifC07lImpl.Dggsvp3(g.jobU, g.jobV, g.jobQ, g.m, g.p, g.n, g.a, *g.lda, g.b, *g.ldb, 1e-8, 1e-8,
+			g.u, *g.ldu, g.v, *g.ldv, g.q, *g.ldq, iwork, tau, work, *lwork)
+	})
+}
+
+// Dggsvd3: "alpha and beta must have length n or Dggsvd3 will panic"; "iwork must have length n, work
+// must have length at least max(1, lwork), and lwork must be -1 or greater than n, otherwise Dggsvd3
+// will panic" (the code and the reference demand lwork >= 1: values in [1, n] are in neither class).
+func VerifC07_Dggsvd3() {
+	g := verifC07lGsvdArgs("Dggsvd3", false)
+	t := g.t
+	alpha := t.vecExact("alpha", g.n, true)
+	beta := t.vecExact("beta", g.n, true)
+	work, lwork := t.work2(1, g.n+1, verifParam("ldrvdim", 1)+1)
+	iwork := t.intsAlways("iwork", g.n, false)
+	t.run(func() {
+		verifC07lImpl.Dggsvd3(g.jobU, g.jobV, g.jobQ, g.m, g.n, g.p, g.a, *g.lda, g.b, *g.ldb, alpha, beta,
+			g.u, *g.ldu, g.v, *g.ldv, g.q, *g.ldq, work, *lwork, iwork)
+	})
+}
+
+// Dtgsja: jobs may also be GSVDUnit; k, l describe the sub-blocks of the documented forms of A and B:
+// 0 <= k <= m, 0 <= l <= p, k+l <= n (other values are excluded: nothing is documented for them);
+// "work must have length at least 2*n", "alpha and beta must have length n or Dtgsja will panic".
+func VerifC07_Dtgsja() {
+	g := verifC07lGsvdArgs("Dtgsja", true)
+	t := g.t
+	hi := verifParam("ldrvdim", 1)
+	k, l := verifChoose("k", 0, hi), verifChoose("l", 0, hi)
+	if k > g.m || l > g.p || k+l > g.n {
+		return
+	}
+	alpha := t.vecExact("alpha", g.n, true)
+	beta := t.vecExact("beta", g.n, true)
+	work := t.scratch("work", 2*g.n)
+	t.run(func() {
+		verifC07lImpl.Dtgsja(g.jobU, g.jobV, g.jobQ, g.m, g.p, g.n, k, l, g.a, *g.lda, g.b, *g.ldb, 1e-8, 1e-8,
+			alpha, beta, g.u, *g.ldu, g.v, *g.ldv, g.q, *g.ldq, work)
+	})
 }
